@@ -40,8 +40,9 @@ def cmake_text(rel, rng=None, rich=False):
     return t
 
 
-def gen_tree(rng, max_depth=4, p_sub=0.6, mixed_case=True, noncmake=True, rich=False, ensure_top=True):
+def gen_tree(rng, max_depth=4, p_sub=0.6, mixed_case=True, noncmake=True, rich=False, ensure_top=True, case_twins=False):
     t = Tree()
+    twins = {"a": "A", "b": "B", "top": "Top", "m": "M", "util": "Util", "sub": "Sub", "aa": "AA", "core": "Core", "zz": "ZZ"}
 
     def fill(d, depth):
         nfiles = rng.choice([0, 0, 1, 2, 3, 4]) if d else rng.choice([1, 2, 3, 4])
@@ -55,6 +56,9 @@ def gen_tree(rng, max_depth=4, p_sub=0.6, mixed_case=True, noncmake=True, rich=F
                 have_lower = True
             rel = os.path.join(d, s + ext)
             t.files[rel] = cmake_text(rel, rng, rich)
+            if case_twins and s in twins and rng.random() < 0.5:
+                rel2 = os.path.join(d, twins[s] + ".cmake")
+                t.files[rel2] = cmake_text(rel2, rng, rich)
         if noncmake:
             for n in rng.sample(NONCMAKE, rng.choice([0, 0, 1, 2])):
                 t.files[os.path.join(d, n)] = "not cmake: ( \" unbalanced\n"
@@ -63,6 +67,10 @@ def gen_tree(rng, max_depth=4, p_sub=0.6, mixed_case=True, noncmake=True, rich=F
                 sd = os.path.join(d, n)
                 t.dirs.add(sd)
                 fill(sd, depth + 1)
+                if case_twins and n in twins and rng.random() < 0.5:
+                    sd2 = os.path.join(d, twins[n])
+                    t.dirs.add(sd2)
+                    fill(sd2, depth + 1)
     fill("", 0)
     if ensure_top and not any(f.endswith(".cmake") for f in t.files_of("")):
         t.files["top.cmake"] = cmake_text("top.cmake", rng, rich)
